@@ -139,3 +139,15 @@ chk("C13",
     "pandapower's control / time-series machinery is a parameter of the model with a stated law; multi-energy time series are "
     "exercised under C20.",
     "Lean 4 proof by induction over time-step lists + source-generated wiring facts; differential time-series search", "8/C13")
+chk("C19",
+    "Lean theorems: every tabulated point of every interpolated property of every library fluid is reproduced exactly and all "
+    "tables are strictly increasing (kernel evaluation over tables regenerated from properties/*/*.txt as exact rationals); "
+    "segment laws of the interpolation (first segment incl. extrapolation below, skip rule, two-knot tables, linearity of a "
+    "segment); stored compressibility derivative = slope of the compressibility law for all library fluids except hydrogen, with "
+    "a kernel-checked witness of that data inconsistency; integrals of interpolated / constant / linear properties are "
+    "antisymmetric, additive (constant, linear) and consistent with the property values; mass fractions sum to one; weighted "
+    "mixtures stay within component bounds; pump lift is non-negative, zero for reverse flow and follows the regression "
+    "polynomial. Ties: model vs real Fluid / PumpStdType on knots, random and out-of-range queries. Search: the property-level "
+    "oracle on the real classes incl. scalar/array/Series shapes and std types reaching net.pipe.",
+    "Polynomial and Sutherland property classes and numpy.polyfit (pump regression at load time) are exercised, not modelled.",
+    "Lean 4 proof incl. kernel-decided facts over source-generated rational tables; correspondence; library oracle", "8/C19")
